@@ -23,6 +23,18 @@ from statham.schema.validation import (
 RESERVED_PROPERTIES = dir(object) + list(keyword.kwlist) + ["_dict"]
 
 
+def _docstring(text: str) -> str:
+    """Render text as a triple-quoted literal which evaluates back to it."""
+    escaped = text.replace("\\", "\\\\").replace('"', '\\"')
+    escaped = "".join(
+        char
+        if char == "\n" or char.isprintable()
+        else char.encode("unicode_escape").decode("ascii")
+        for char in escaped
+    )
+    return f'"""{escaped}"""'
+
+
 class ObjectClassDict(dict):
     """Overriden class dictionary for the metaclass of Object.
 
@@ -179,7 +191,7 @@ class ObjectMeta(type, Element):
         if not cls.description is None and not isinstance(
             cls.description, NotPassed
         ):
-            class_def += f'    """{cls.description}"""\n'
+            class_def += f"    {_docstring(cls.description)}\n"
         if not cls.properties:
             class_def = (
                 class_def
